@@ -5,6 +5,7 @@
 set -u
 cd "$(dirname "$0")" || exit 2
 export PYTHONHASHSEED=0 PYTHONDONTWRITEBYTECODE=1 AW_CORE_VERIF=1
-export PYTHONPATH="/repo:$(pwd)"
+export VERIF_REPO="${VERIF_REPO:-/repo}"
+export PYTHONPATH="$VERIF_REPO:$(pwd)"
 mkdir -p build evidence replays coq/Gen
 /venv/bin/python -m harness.setup "$@"
